@@ -546,9 +546,8 @@ func (f *followingQuery) Select(t iterator) NodeNavigator {
 								Input:     &contextQuery{},
 								Predicate: f.Predicate,
 							}
-							t.Current().MoveTo(node)
 						}
-						if node := q.Select(t); node != nil {
+						if node := q.Select(iteratorFunc(func() NodeNavigator { return node })); node != nil {
 							f.posit = q.posit
 							return node
 						}
@@ -636,9 +635,8 @@ func (p *precedingQuery) Select(t iterator) NodeNavigator {
 								Input:     &contextQuery{},
 								Predicate: p.Predicate,
 							}
-							t.Current().MoveTo(node)
 						}
-						if node := q.Select(t); node != nil {
+						if node := q.Select(iteratorFunc(func() NodeNavigator { return node })); node != nil {
 							p.posit++
 							return node
 						}
